@@ -111,13 +111,21 @@ _RULE_RECURSION_LIMIT = 50_000
 
 @contextmanager
 def _deep_recursion() -> Iterator[None]:
-    """Raise the interpreter recursion limit while a rule analyses a file."""
+    """Lift interpreter limits that source text can exceed while a rule analyses a file.
+
+    The recursion limit (deep syntax trees) and the int <-> str digit limit: a literal of more than
+    4300 digits makes repr() / ast.unparse() / message formatting raise ValueError, which would be
+    mistaken for a configuration error and abort the run.
+    """
     previous = sys.getrecursionlimit()
+    previous_digits = sys.get_int_max_str_digits()
     sys.setrecursionlimit(max(previous, _RULE_RECURSION_LIMIT))
+    sys.set_int_max_str_digits(0)
     try:
         yield
     finally:
         sys.setrecursionlimit(previous)
+        sys.set_int_max_str_digits(previous_digits)
 
 
 def _is_hardcoded_excluded(file_path: Path) -> bool:
@@ -363,7 +371,7 @@ class Orchestrator:  # thailint: ignore[srp]
 
         # Call finalize() on all rules after processing all files
         for rule in self.registry.list_all():
-            violations.extend(self._drop_linter_ignored(rule.finalize()))
+            violations.extend(self._drop_linter_ignored(self._safe_finalize(rule)))
 
         return violations
 
@@ -440,6 +448,11 @@ class Orchestrator:  # thailint: ignore[srp]
             logger.exception("Rule %s failed on %s", rule.rule_id, context.file_path)
             return []
 
+    def _safe_finalize(self, rule: BaseLintRule) -> list[Violation]:
+        """Finalize a rule under the same lifted interpreter limits as check()."""
+        with _deep_recursion():
+            return rule.finalize()
+
     def lint_directory(self, dir_path: Path, recursive: bool = True) -> list[Violation]:
         """Lint all files in a directory.
 
@@ -459,7 +472,7 @@ class Orchestrator:  # thailint: ignore[srp]
 
         # Call finalize() on all rules after processing all files
         for rule in self.registry.list_all():
-            violations.extend(self._drop_linter_ignored(rule.finalize()))
+            violations.extend(self._drop_linter_ignored(self._safe_finalize(rule)))
 
         return violations
 
@@ -553,7 +566,7 @@ class Orchestrator:  # thailint: ignore[srp]
         self._ensure_rules_discovered()
         violations: list[Violation] = []
         for rule in self.registry.list_all():
-            violations.extend(self._drop_linter_ignored(rule.finalize()))
+            violations.extend(self._drop_linter_ignored(self._safe_finalize(rule)))
         return violations
 
     def lint_directory_parallel(
